@@ -211,7 +211,29 @@ int main(int argc, char **argv) {
     printf("\"aom_frames\":%d,\"d1_frames\":%d,\"agree\":%d,\"first_disagree\":%d,\"nrec\":%d,\"rec_mismatch\":%d,\"first_rec_mismatch\":%d,", nfa, nfd, agree, first_disagree, nr, rec_mismatch, first_rec_mismatch);
     printf("\"frames\":[");
     for (int i = 0; i < nref; i++) printf("%s[%d,%d,%d,\"%016llx\"]", i ? "," : "", ref[i].w, ref[i].h, ref[i].bpc, (unsigned long long)ref[i].hash);
-    printf("],\"rec_zero\":[");
+    printf("]");
+    /* order check against the source pictures (<prefix>.src, planar, same sample size): decoded picture k must be
+     * at least as close (SSE over luma) to source k as to any other source */
+    {
+        size_t sn2; uint8_t *src = readall(pre, ".src", &sn2, 1);
+        if (src && nref > 0 && ref[0].len > 0 && sn2 % ref[0].len == 0) {
+            int ns = (int)(sn2 / ref[0].len), bad = -1;
+            size_t lsz = (size_t)ref[0].w * ref[0].h * (ref[0].bpc > 8 ? 2 : 1);
+            for (int k = 0; k < nref && k < ns && bad < 0; k++) {
+                double best = -1, own = 0;
+                for (int j = 0; j < ns; j++) {
+                    double sse = 0; const uint8_t *a = ref[k].data, *b = src + (size_t)j * ref[0].len;
+                    if (ref[0].bpc > 8) { const uint16_t *a16 = (const uint16_t *)a, *b16 = (const uint16_t *)b; for (size_t i = 0; i < lsz / 2; i++) { double d = (double)a16[i] - b16[i]; sse += d * d; } }
+                    else for (size_t i = 0; i < lsz; i++) { double d = (double)a[i] - b[i]; sse += d * d; }
+                    if (j == k) own = sse;
+                    if (best < 0 || sse < best) best = sse;
+                }
+                if (own > best) bad = k;
+            }
+            printf(",\"nsrc\":%d,\"order_bad\":%d", ns, bad);
+        }
+    }
+    printf(",\"rec_zero\":[");
     { int first = 1; for (int i = 0; i < nr; i++) { int z = 1; for (uint64_t k = 0; k < rs[i].len; k++) if (rs[i].p[k]) { z = 0; break; } if (z) { printf("%s%d", first ? "" : ",", i); first = 0; } } }
     printf("]}\n");
     if (dump) {
